@@ -585,12 +585,15 @@ def r6_fresh_pattern_tree(ctx, sym):
     ctx.analysed_function(nmod, fn)
     built = []
 
-    def new_matcher(pattern, *a, **k):
-        root = Obj('pattern-root', children=[Obj('pattern-child')])
-        m = Obj('matcher', root_node=root, pattern=pattern)
-        symexec.method(m, 'find_matches', lambda node, **kw: [Obj('AstMap', root=root, searched=node, **kw)])
-        built.append(m)
-        return m
+    # the matcher class is pedal's own (constructed for real, through whatever helper or classmethod builds it); only
+    # parsing and tree wrapping are modelled, and the search itself is replaced by a recorder
+    def parse(text, *a, **k):
+        return Obj('ast-of-pattern', text=text)
+
+    def wrap(tree, *a, **k):
+        root = Obj('CaitNode', children=[Obj('CaitNode')], field='none', ast_name='Module', tree=tree)
+        built.append(root)
+        return root
     store = {}
     report = Obj('report', __open__=True)
     symexec.method(report, '__getitem__', lambda k: store.setdefault(k, {}))
@@ -600,9 +603,11 @@ def r6_fresh_pattern_tree(ctx, sym):
     inner = symexec.self_obj(nmod, 'CaitNode', report=report, map=Obj('AstMap-of-first-match'), children=[],
                              ast_name='If')
     fd = symexec.new_fd(sym, nmod, calls={
-        'stm.StretchyTreeMatcher': new_matcher, 'StretchyTreeMatcher': new_matcher,
+        'ast.parse': parse, 'CaitNode': wrap,
         'isinstance': lambda o, t: isinstance(o, t) if isinstance(t, (type, tuple)) else (
-            isinstance(o, Obj) and o._name == 'CaitNode')})
+            isinstance(o, Obj) and o._name == 'CaitNode' and 'tree' not in o.attrs and False)})
+    fd.methods['find_matches'] = lambda recv, node, *a, **kw: [Obj('AstMap', root=recv.attrs.get('root_node'),
+                                                                  searched=node)]
     results = []
     for node in (outer, inner):
         got, raised = symexec.run(fd, fn, ['if __cond__:\n    __inner__'], bound_self=node,
